@@ -116,6 +116,18 @@ func runC22(c *Ctx) {
 			okWB = desc(ci.Common().Args[0]) == "p0" && desc(ci.Common().Args[1]) == "p1"
 		}
 	}
+	if !okWB {
+		// the wrapper literal built in place: WrappedBlock{BlockType: blockType, BlockCbor: blockCbor}
+		fields := map[string]string{}
+		for _, in := range fnInstrs(nc) {
+			if st, ok := in.(*ssa.Store); ok {
+				if fa, ok := st.Addr.(*ssa.FieldAddr); ok && strings.HasSuffix(strings.TrimPrefix(typeStr(fa.X.Type()), "*"), ".WrappedBlock") {
+					fields[fieldName(fa.X.Type(), fa.Field)] = trace(st.Val)
+				}
+			}
+		}
+		okWB = fields["BlockType"] == "p0" && fields["BlockCbor"] == "p1"
+	}
 	c.Check(okWB, "ntc-wrap-args", ssaFuncKey(nc), nc.Pos(), "wraps (blockType, blockCbor) as given", "the NtC roll-forward does not wrap the given type and bytes")
 	// WrappedBlock.BlockCbor is RawMessage
 	okRaw := false
